@@ -68,6 +68,7 @@ type Case struct {
 	Verdict string    `json:"verdict"`
 	Types   []TypeEnt `json:"types"`
 	Out     []OutEnt  `json:"out"`
+	Omitted []string  `json:"omitted"` // kinds ("S", "A") of the parameters some call leaves without argument
 	Norders int       `json:"norders"`
 	Errs    []ErrEnt  `json:"errs"`
 }
@@ -178,6 +179,10 @@ func renderStmt(sb *strings.Builder, nm *Naming, f, i int, st Stmt, salt int) {
 		args := make([]string, len(st.Args))
 		for j, a := range st.Args {
 			args[j] = varName(nm, f, a)
+			if a.Sc == "C" {
+				// the constant passed as argument number j has j characters (Resolver!BuildFrame)
+				args[j] = `"` + strings.Repeat("c", j+1) + `"`
+			}
 		}
 		call := nm.Func(st.F) + "(" + strings.Join(args, ", ") + ")"
 		if f == 0 {
@@ -316,6 +321,28 @@ func class(p *Prog) string {
 		return "constant"
 	}
 	return "direct"
+}
+
+// omitClass names what the calls of an accepted program leave out: the
+// argument class of the frame signatures.
+func omitClass(c *Case) string {
+	sc, ar := false, false
+	for _, k := range c.Omitted {
+		if k == "A" {
+			ar = true
+		} else {
+			sc = true
+		}
+	}
+	switch {
+	case sc && ar:
+		return "omitted-scalars+arrays"
+	case ar:
+		return "omitted-arrays"
+	case sc:
+		return "omitted-scalars"
+	}
+	return "all-passed"
 }
 
 // ---- running one rendering ----
@@ -465,8 +492,15 @@ func Replay(raw json.RawMessage) hx.Outcome {
 				break
 			}
 		}
+		if oc := omitClass(&c); oc != "all-passed" {
+			// some call leaves parameters without argument: the callee's frame (passed scalars copied in, missing
+			// scalars uninitialised, missing arrays fresh and empty on every call) is what the model predicts here
+			return hx.Fail("C16/run/frame/"+kind+"/"+oc, "output of an accepted program whose calls pass fewer arguments than parameters "+
+				"differs from the specification's run-time model (passed scalars visible in the callee, omitted scalars uninitialised, "+
+				"omitted arrays fresh on every call)", want, string(first.out), first.src)
+		}
 		return hx.Fail("C16/run/output/"+kind+"/"+cls, "output of the accepted program differs from the specification's run-time model",
 			want, string(first.out), first.src)
 	}
-	return hx.OK(cls != "direct")
+	return hx.OK(cls != "direct" || len(c.Omitted) > 0)
 }
